@@ -350,6 +350,12 @@ func (e *Env) binary(x SBinary) TV {
 	a, b := e.eval(x.X), e.eval(x.Y)
 	switch x.Op {
 	case "==", "!=":
+		// slice compared with nil
+		if a.T.Sort == SSlice && b.T.S == "0" {
+			a, b = TV{SlArr(a.T), nil}, TV{IntLit(0), nil}
+		} else if b.T.Sort == SSlice && a.T.S == "0" {
+			a, b = TV{IntLit(0), nil}, TV{SlArr(b.T), nil}
+		}
 		if a.T.Sort != b.T.Sort {
 			e.fail("comparison of different sorts %s / %s in %v", a.T.Sort, b.T.Sort, x)
 		}
